@@ -290,16 +290,20 @@ def libShortest (fuel n : Nat) (adj : Nat → List (Nat × Int)) (src dest : Nat
 def adjOf (arcs : List Arc) (u : Nat) : List (Nat × Int) :=
   arcs.filterMap fun a => if a.1 = u then some (a.2.1, a.2.2) else none
 
-/-- The fuel used for a graph: generous (every pop is preceded by a push, every push by a strict
-decrease of a label). -/
-def libFuel (g : Graph) : Nat := (g.n + 2) * (g.arcs.length + 2) * 4 + 16
+/-- The fuel used for a graph. The Go loop has no bound; the port's bound is the termination
+measure of the loop at its start (twice the sum of all labels plus the list length, see
+`Lemmas.evalLoop_total`), so it is never the reason for stopping: astronomically large, but the
+loop ends as soon as the work list is empty. -/
+def libFuel (g : Graph) : Nat := infDist.toNat * (2 * g.n + 1)
 
-/-- `computeRoutingTable`'s use of the library: `Shortest(0, i)`, `err == nil`, `len(Path) > 1`,
-next hop `Path[1]`. -/
-def libNextHop (g : Graph) (d : Nat) : Option Nat :=
-  match libShortest (libFuel g) g.n (adjOf g.arcs) 0 d with
+/-- `err == nil`, `len(Path) > 1`, next hop `Path[1]`. -/
+def hopOf : LibRes → Option Nat
   | .ok _ (_ :: h :: _) => some h
   | _ => none
+
+/-- `computeRoutingTable`'s use of the library: `Shortest(0, i)` and `hopOf`. -/
+def libNextHop (g : Graph) (d : Nat) : Option Nat :=
+  hopOf (libShortest (libFuel g) g.n (adjOf g.arcs) 0 d)
 
 def libTable (g : Graph) : Table :=
   (List.range g.n).filterMap fun d =>
